@@ -100,6 +100,16 @@ Theorem C20_parent_links_refuted_after_repair :
 Proof. exact parent_links_refuted_after_repair. Qed.
 Print Assumptions C20_parent_links_refuted_after_repair.
 
+(* outside the contract (tree builders always detach first; the trait text would
+   allow it): append_before_sibling of an EARLIER sibling under the same parent
+   puts the node AFTER the reference sibling, because the index is computed
+   before the removal.  Recorded as a latent deviation, not judged by the check. *)
+Theorem C20_before_sibling_same_parent_latent_outside_contract :
+  contract_run init w3 = false /\
+  rkids (state_of (rrun false w3)) 1 = [3; 2] /\ kids (run w3) 1 = [2; 3].
+Proof. exact before_sibling_same_parent_latent. Qed.
+Print Assumptions C20_before_sibling_same_parent_latent_outside_contract.
+
 (* non-vacuity: a foster-parenting / adoption-agency shaped sequence (text merge
    before a sibling, remove + re-append, reparent_children, add_attrs_if_missing,
    template contents) respects the contract, is outside the finding, and the
